@@ -365,16 +365,17 @@ def run(ctx):
         cproj = corpus_project()
         cpaths, search = corpus_paths()
         for name, cfg, expected, ignored in CORPUS:
+            # (a) the hand-written expectation of the repository test, fed to TLC as if it had been observed:
+            #     the specification must accept it (otherwise the spec is wrong: machinery error)
+            items = [{'name': n, 'kind': 'proc' if '#' in n else 'mod', 'ignored': n in ignored,
+                      'file': next(p_['file'] for p_ in cproj['procs'] if L.full_name(p_) == n) if '#' in n
+                      else next(m_['file'] for m_ in cproj['mods'] if m_['name'] == n)} for n in expected]
+            edges = [[a, b] for a, bs in expected.items() for b in bs]
+            runs.append(({'P': cproj, 'C': cfg, 'fp': True, 'ei': True, 'layout': 0, 'plain': True, 'origin': f'corpus-expectation:{name}'},
+                         {'P': L.tla_project(cproj), 'C': cfg, 'obs': {'items': items, 'edges': edges, 'raised': ''}}))
+            # (b) the real scheduler on the repository's files
             for fp in (False, True):
-                obs = add(cproj, cfg, fp, True, 0, True, f'corpus:{name}', paths=cpaths, search=search)
-                got = {i['name']: set() for i in obs['items']}
-                for a, b in obs['edges']:
-                    got[a].add(b)
-                exp = {k: set(v) for k, v in expected.items()}
-                ign = {i['name'] for i in obs['items'] if i['ignored']}
-                if obs['raised'] or got != exp or ign != set(ignored):
-                    raise MachineryError(f'validation corpus {name} (full_parse={fp}): the real scheduler does not reproduce '
-                                         f'the expectation of the repository test: got {got} ignored {ign} {obs["raised"]}')
+                add(cproj, cfg, fp, True, 0, True, f'corpus:{name}', paths=cpaths, search=search)
         ncorpus = len(runs)
         # ---- 3. TLC-enumerated small projects x config lattice
         small = []
@@ -413,7 +414,7 @@ def run(ctx):
             features.add((len(t['obs']['items']), len(t['obs']['edges']), sum(i_['ignored'] for i_ in t['obs']['items']),
                           sum(i_['kind'] == 'mod' for i_ in t['obs']['items'])))
             continue
-        if case['origin'].startswith('corpus'):
+        if case['origin'].startswith('corpus-expectation'):
             raise MachineryError(f'validation corpus: the specification rejects what the repository tests expect: '
                                  f'{case["origin"]} clause {clause}')
         rejected.setdefault(coarse_class(clause, t['obs']), []).append(i)
